@@ -135,7 +135,14 @@ SELECT = {
         ("tup", "({v}.met(), {v}.nvtx())", ANY), ("tup", "({v}.jets().Count(), {v}.met({k}.0))", ANY),
         ("dic", "Pair(a={v}.met(), b={v}.nvtx())", CALLABLE), ("dic", "NPair({v}.met(), b={v}.jets().Count())", CALLABLE), ("dic", "Pair({v}.nvtx(), {v}.met())", CALLABLE),
         ("tupseq", "({v}.jets(), {v}.met())", ANY), ("Event", "{v}", ANY),
+        # inner fusion inside the stage lambda: an argument mentioning the stage variable is substituted below lambdas re-using names
+        ("seqnum", "{v}.jets().Select(lambda j: (j, {v}.met())).Select(lambda t: t[0].pt() + t[1])", ANY),
+        ("deep", "{v}.jets().Select(lambda j: (j, {v}.met())).Select(lambda t: t[0].trks().Select(lambda {v}: {v}.pt() + t[1]))", ANY),
+        ("deep", "{v}.jets().Select(lambda j: (j, {v}.met())).Select(lambda t: t[0].trks().Select(lambda k: t[0].trks().Select(lambda {v}: {v}.pt() + t[1] + k.pt())))", ANY),
+        ("deep", "{v}.jets().Select(lambda j: {{'j': j, 'm': {v}.nvtx()}}).Select(lambda j: j.j.trks().Select(lambda t: j.j.trks().Select(lambda {v}: {v}.pt() * j.m)))", ANY),
+        ("seqnum", "{v}.jets().Where(lambda j: j.ntrk() > 0).Select(lambda j: (j.trks(), {v}.met())).Select(lambda {v}: {v}[0].Select(lambda j: j.pt() + {v}[1]).Count())", ANY),
     ],
+    "deep": [("num", "{v}.Count()", ANY), ("deep", "{v}", ANY)],
     "Jet": [
         ("num", "{v}.pt()", ANY), ("num", "{v}.pt(shift={k})", ANY), ("num", "{v}.pt({k}.0, 1) + {v}.eta()", ANY), ("num", "{v}.ntrk()", ANY),
         ("num", "{v}.trks().Count()", ANY), ("num", "{v}.trks(minpt={k}.0).Select(lambda t: t.pt()).Count()", ANY), ("num", "{v}.idx", ANY),
@@ -167,6 +174,7 @@ WHERE = {
     "seqJet": [("{v}.Count() > 0", ANY), ("{v}.Where(lambda j: j.pt() > {k}).Count() > 0", ANY)],
     "seqTrk": [("{v}.Count() > 0", ANY)],
     "seqnum": [("{v}.Count() > 1", ANY)],
+    "deep": [("{v}.Count() >= 0", ANY)],
 }
 SEQ_ELEM = {"seqJet": "Jet", "seqTrk": "Trk", "seqnum": "num"}
 TERMINALS = [("AsROOTTTree", ("f'i\"le.root", "tr ee", ["col a", "b'c"])), ("AsPandasDF", (["x"],)), ("AsAwkwardArray", ("c\\d",)), ("AsParquetFiles", ("out.parquet", ["c"]))]
